@@ -19,7 +19,7 @@ def tlc_cases(chk):
     d = vlib.scratch("c04")
     cfg = os.path.join(d, "c.cfg")
     with open(cfg, "w") as f:
-        f.write("SPECIFICATION Spec\nINVARIANTS\n AllWellFormed\n P1\n P2\n P3\n P4\n P5\n P6\n Emit\n")
+        f.write("SPECIFICATION Spec\nINVARIANTS\n AllWellFormed\n P1\n P2\n P3\n P4\n P5\n P6\n P7\n Emit\n")
     r = vlib.run_tlc("MC_AnchorPolicy.tla", cfg, timeout=2400, workers=16)
     if r.violation:
         raise vlib.CheckError("AnchorPolicy.tla violates %s:\n%s" % (r.violation, r.out[-3000:]))
@@ -59,6 +59,12 @@ class Case:
         s = self.s = ksi.build_sig(rng, doc, nchains=2, time=T, pub=P1, anchor=anchor, kinds=("imprint", "legacy", "meta"))
         self.agg_root = s.root()[0]
         self.chains = {}
+        if e.get("sigAlg", "current") == "deprecated":
+            # one left sibling of the signature's own calendar chain is a SHA-1 imprint: deprecated (not obsolete) at any publication time after 2016-07-01
+            s.cal["links"] = self.deprecate(s.cal["links"])
+            root = ksi.cal_aggregate(s.cal["links"], s.cal["inp"])
+            if s.pub: s.pub = dict(s.pub, imp=root)
+            if s.auth: s.auth = dict(s.auth, imp=root)
         if e["internal"] == "broken":
             s.chains[0]["index"] = list(s.chains[0]["index"]); s.chains[0]["index"][-1] ^= 1
         if e["rec"] == "auth":
@@ -74,6 +80,13 @@ class Case:
             self.cert = W.cert("valid", T)
         self.sig = s.tlv()
 
+    def deprecate(self, links):
+        idx = [i for i, (l, _) in enumerate(links) if l]
+        if not idx: raise Unrealisable()
+        i = self.rng.choice(idx); links = list(links)
+        links[i] = (True, ksi.fake_imprint(0, self.rng.randbytes(8)))
+        return links
+
     def honest_chain(self, X):
         """the calendar database: the one true chain from T to X (the signature's own chain when X is its publication time)"""
         if X not in self.chains:
@@ -81,6 +94,8 @@ class Case:
                 self.chains[X] = list(self.s.cal["links"])
             else:
                 self.chains[X] = wire.new_cal_chain(self.rng, self.s, X, self.T)
+                if self.e["ext"] == "deprecatedAlg":      # the calendar database was built with a deprecated algorithm on one left sibling
+                    self.chains[X] = self.deprecate(self.chains[X])
         return self.chains[X]
 
     def true_root(self, X):
@@ -189,13 +204,13 @@ class Case:
 
 def key_of(c):
     e = c["e"]
-    return (c["p"], c["v"]["res"], c["v"]["code"], e["rec"], e["cal"], e["ext"] if e["ext"] != "honest" else "h", e["cert"], e["pfsrc"][:9], e["up"] + e["upTime"][:2], e["pf"] + e["pfc"]["atSig"][:2] + e["pfc"]["later"][:2])
+    return (c["p"], c["v"]["res"], c["v"]["code"], e["rec"] + e["sigAlg"][:1], e["cal"], e["ext"] if e["ext"] != "honest" else "h", e["cert"], e["pfsrc"][:9], e["up"] + e["upTime"][:2], e["pf"] + e["pfc"]["atSig"][:2] + e["pfc"]["later"][:2])
 
 
 def describe(c):
     e = c["e"]
-    return "%s: sig(cal=%s,rec=%s,internal=%s) userPub=%s pubFile=%s extAllowed=%s extender=%s cert=%s" % (
-        c["p"], e["cal"], e["rec"], e["internal"], "none" if e["up"] == "none" else e["upTime"] + "/" + e["upHash"],
+    return "%s: sig(cal=%s/%s,rec=%s,internal=%s) userPub=%s pubFile=%s extAllowed=%s extender=%s cert=%s" % (
+        c["p"], e["cal"], e.get("sigAlg"), e["rec"], e["internal"], "none" if e["up"] == "none" else e["upTime"] + "/" + e["upHash"],
         "none" if e["pf"] == "none" else "%s:atSig=%s,later=%s" % (e["pfsrc"], e["pfc"]["atSig"], e["pfc"]["later"]), e["extAllowed"], e["ext"], e["cert"])
 
 
@@ -262,10 +277,10 @@ def run(chk, tier, seed):
             chk.violation("crash:verify:exit", "driver exited rc=%s (leak or sanitizer report)\n%s" % (rc, err[-2500:]), {})
     chk.sample(dict(kind="verdicts replayed", by_result=byres)); chk.sample(dict(kind="case", case=chosen[len(chosen) // 2]))
     chk.add(evaluations=n, distinct_nontrivial=n, model_cases=len(cases), case_classes=len(groups), unrealisable=skipped, exhaustive=False,
-            rule="TLC: all 591 360 (policy, environment) pairs against 5 invariants. Replay: %d case(s) of every class (policy x verdict x code x signature shape x extender behaviour x certificate state "
-                 "x user publication x publications file content)" % per)
+            rule="TLC: all %d (policy, environment) pairs against 7 invariants. Replay: %d case(s) of every class (policy x verdict x code x signature shape x extender behaviour x certificate state "
+                 "x user publication x publications file content)" % (len(cases), per))
     chk.assumptions += ["the publications file is either handed over as the user's file, or fetched through the context's file:// publications URL and PKI-verified (trusted / untrusted by wrong CA, empty store or other constraint value); 'no file' means the download fails",
-                        "hash algorithms are SHA-256 throughout: the `algorithm deprecated at publication time` leaves are constant OK",
+                        "deprecated algorithm = one SHA-1 left sibling in the signature's own / the extender's calendar chain, publication times after 2016-07-01; aggregation chains are SHA-256 throughout (their lifetime rules are C01's)",
                         "extender behaviours are one deviation at a time; HTTP transport not bound"]
 
 
